@@ -102,6 +102,15 @@ Theorem C14_sequential : forall h1 t q h2, NoDup (map fst (h1 ++ (t, q) :: h2)) 
 Proof. exact e3_C14_sequential. Qed.
 Print Assumptions C14_sequential.
 
+(* cancellation (ACancel / AResumeCancelled) is not part of the sequential driver: a request submitted alone in a
+   reachable quiescent state (whatever was cancelled before) never answers "gave up the lock wait" -- its answer is
+   [answer], which has no such case; previews in particular are not affected by the cancellation actions, and
+   C14_later_run / C14_frame_step cover cancellations of OTHER requests among the later actions ([avoids]) *)
+Theorem C14_never_lock_cancelled : forall s t q, reachable s -> quiescent s -> get_thread (threads s) t = None ->
+  exists th, get_thread (threads (submit s t q)) t = Some th /\ t_resp th <> Some (RErr ELockCancelled).
+Proof. exact e3_C14_never_lock_cancelled. Qed.
+Print Assumptions C14_never_lock_cancelled.
+
 (* ---- non-vacuity: after two transactions (the second with key 8 and reference 9), a preview of the revert of
    transaction 0 under key 5: reachable, quiescent, fresh id; the preview answers transaction id 2, so does the
    real revert; nothing observable changed ------------------------------------------------------------------------ *)
